@@ -397,6 +397,160 @@ REPRODUCERS = [
 ]
 
 
+def core_sig_vectors() -> tuple[list[dict[str, Any]], list[Any]]:
+    """Every vector of Core's script_tests.json on Core's own crediting / spending transactions (so that its signatures verify)."""
+    from btclib.script.script_pub_key import ScriptPubKey
+    from btclib.script.witness import Witness
+    from btclib.tx import OutPoint, Tx, TxIn, TxOut
+
+    d = json.load(open(REPO / "tests/script_engine/_data/script_tests.json"))
+    evs, meta = [], []
+    for v in d:
+        if len(v) < 4:
+            continue
+        wit: list[str] = []
+        amount = 0
+        if isinstance(v[0], list):
+            wit, amount, v = v[0][:-1], int(round(v[0][-1] * 1e8)), v[1:]
+        sig, spk, flags, exp = v[0], v[1], v[2], v[3]
+        if any("#" in w for w in wit) or "#" in sig or "#" in spk:
+            continue
+        try:
+            s1, s2 = assemble(sig), assemble(spk)
+        except ValueError:
+            continue
+        credit = Tx(1, 0, [TxIn(OutPoint(bytes(32), 0xFFFFFFFF, check_validity=False), b"\x00\x00", 0xFFFFFFFF, check_validity=False)],
+                    [TxOut(amount, ScriptPubKey(s2, check_validity=False), check_validity=False)], check_validity=False)
+        spend = Tx(1, 0, [TxIn(OutPoint(credit.id, 0), s1, 0xFFFFFFFF, Witness([bytes.fromhex(w) for w in wit]), check_validity=False)],
+                   [TxOut(amount, ScriptPubKey(b"", check_validity=False), check_validity=False)], check_validity=False)
+        evs.append({"op": "verify", "tx": spend.serialize(include_witness=True, check_validity=False).hex(), "prevouts": [{"value": nat(amount), "spk": s2.hex()}], "idx": 0,
+                    "flags": [f for f in flags.split(",") if f and f != "NONE"], "ok": exp == "OK", "_credit": credit, "_spend": spend})
+        meta.append(v[:5])
+    return evs, meta
+
+
+def nat(i: int) -> str:
+    from ..core import nat as _nat
+
+    return _nat(i)
+
+
+def record_sig_spends(run: Run, n: int) -> list[dict[str, Any]]:
+    """CHECKSIG / CHECKMULTISIG spends with real signatures in every state: valid, empty, wrong key, wrong order, high s, a changed
+    hash type byte, hybrid and uncompressed keys, bare / P2SH / P2WSH, [NOT] after the opcode, under random consistent flag sets."""
+    from btclib.curves import mult
+    from btclib.ecc import dsa
+    from btclib.script import sig_hash
+    from btclib.script.engine import verify_input
+    from btclib.script.script_pub_key import ScriptPubKey
+    from btclib.script.witness import Witness
+    from btclib.tx import OutPoint, Tx, TxIn, TxOut
+    from btclib.exceptions import BTClibException
+
+    r = random.Random(run.seed + 8)
+    N_ = 0xFFFFFFFFFFFFFFFFFFFFFFFFFFFFFFFEBAAEDCE6AF48A03BBFD25E8CD0364141
+    evs = []
+
+    def push(b: bytes) -> bytes:
+        return bytes([len(b)]) + b if len(b) <= 75 else b"\x4c" + bytes([len(b)]) + b
+
+    def key_bytes(d: int, form: str) -> bytes:
+        P = mult(d)
+        x, y = P[0].to_bytes(32, "big"), P[1].to_bytes(32, "big")
+        return {"c": bytes([2 + P[1] % 2]) + x, "u": b"\x04" + x + y, "h": bytes([6 + P[1] % 2]) + x + y}[form]
+
+    for _ in range(n):
+        nk = r.choice([1, 1, 2, 3])
+        multi = r.random() < 0.6
+        ds = [r.randrange(1, N_) for _ in range(nk)]
+        forms = [r.choice("cccuh") for _ in range(nk)]
+        keys = [key_bytes(d, f) for d, f in zip(ds, forms)]
+        m = r.randint(1, nk) if multi else 1
+        tail = r.choice([b"", b"\x91", b"\x91"])                      # OP_NOT: the script survives a false
+        if multi:
+            script = bytes([0x50 + m]) + b"".join(push(k) for k in keys) + bytes([0x50 + nk]) + b"\xae" + tail
+        else:
+            script = push(keys[0]) + b"\xac" + tail
+        wrap = r.choice(["bare", "p2sh", "p2wsh", "p2sh-p2wsh"])
+        if wrap == "bare":
+            spk = script
+        elif wrap == "p2sh":
+            spk = ScriptPubKey.p2sh(script).script
+        elif wrap == "p2wsh":
+            spk = ScriptPubKey.p2wsh(script).script
+        else:
+            spk = ScriptPubKey.p2sh(ScriptPubKey.p2wsh(script).script).script
+        amount = 70_000
+        prev = TxOut(amount, ScriptPubKey(spk, check_validity=False), check_validity=False)
+        tx = Tx(2, 0, [TxIn(OutPoint(b"\x21" * 32, 3), b"", 0xFFFFFFFE, check_validity=False)], [TxOut(60_000, ScriptPubKey(b"\x51", check_validity=False), check_validity=False)], check_validity=False)
+        segwit = "wsh" in wrap
+
+        def sign(d: int, ht: int, state: str) -> bytes:
+            if state == "empty":
+                return b""
+            digest = sig_hash.segwit_v0(script, tx, 0, ht, amount) if segwit else sig_hash.legacy(script, tx, 0, ht)
+            if state == "wrong message":
+                digest = bytes([digest[0] ^ 1]) + digest[1:]
+            sg = dsa.sign_(digest, d)
+            if state == "high s":
+                sg = dsa.Sig(sg.r, N_ - sg.s, check_validity=False)
+            body = sg.serialize(check_validity=False)
+            if state == "padded r":
+                body = b"\x30" + bytes([body[1] + 1]) + b"\x02" + bytes([body[3] + 1]) + b"\x00" + body[4:]
+            return body + bytes([ht if state != "hash type 0" else 0])
+
+        # which signatures, in which order and state
+        order = sorted(r.sample(range(nk), m)) if multi else [0]
+        pattern = r.choice(["all valid", "all valid", "one empty", "last empty", "first empty", "reversed", "one wrong message", "one high s", "hash type 0", "one padded r", "all empty", "wrong key"])
+        states = ["valid"] * len(order)
+        if pattern == "one empty":
+            states[r.randrange(len(states))] = "empty"
+        elif pattern == "last empty":
+            states[-1] = "empty"
+        elif pattern == "first empty":
+            states[0] = "empty"
+        elif pattern == "one wrong message":
+            states[r.randrange(len(states))] = "wrong message"
+        elif pattern == "one high s":
+            states[r.randrange(len(states))] = "high s"
+        elif pattern == "hash type 0":
+            states[r.randrange(len(states))] = "hash type 0"
+        elif pattern == "one padded r":
+            states[r.randrange(len(states))] = "padded r"
+        elif pattern == "all empty":
+            states = ["empty"] * len(states)
+        ht = r.choice([1, 1, 2, 3, 0x81, 0x83])
+        signers = [ds[j] for j in order]
+        if pattern == "wrong key":
+            signers = [r.randrange(1, N_)] + signers[1:]
+        sigs = [sign(d, ht, st) for d, st in zip(signers, states)]
+        if pattern == "reversed":
+            sigs = sigs[::-1]
+        dummy = r.choice([b"", b"", b"", b"\x01"])
+        elems = ([dummy] if multi else []) + sigs
+        if wrap == "bare":
+            tx.vin[0].script_sig = b"".join(push(e) if e else b"\x00" for e in elems)
+        elif wrap == "p2sh":
+            tx.vin[0].script_sig = b"".join(push(e) if e else b"\x00" for e in elems) + push(script)
+        elif wrap == "p2wsh":
+            tx.vin[0].script_witness = Witness([*elems, script])
+        else:
+            tx.vin[0].script_sig = push(ScriptPubKey.p2wsh(script).script)
+            tx.vin[0].script_witness = Witness([*elems, script])
+        ALL = ["P2SH", "DERSIG", "STRICTENC", "NULLDUMMY", "NULLFAIL", "LOW_S", "WITNESS", "WITNESS_PUBKEYTYPE", "CLEANSTACK", "MINIMALDATA", "SIGPUSHONLY", "CONST_SCRIPTCODE"]
+        flags = consistent({f for f in ALL if r.random() < 0.6} | ({"P2SH"} if "p2sh" in wrap else set()) | ({"WITNESS", "P2SH"} if "wsh" in wrap else set()))
+        try:
+            verify_input([prev], tx, 0, flags)
+            ok: Any = True
+        except BTClibException:
+            ok = False
+        except Exception as e:  # noqa: BLE001
+            ok = f"foreign {type(e).__name__}: {e}"[:120]
+        evs.append({"op": "verify", "tx": tx.serialize(include_witness=True, check_validity=False).hex(), "prevouts": [{"value": nat(amount), "spk": spk.hex()}], "idx": 0, "flags": flags, "ok": ok,
+                    "kind": f"{'multisig ' + str(m) + '-of-' + str(nk) if multi else 'checksig'} {wrap} {pattern} keys {''.join(forms)}{' NOT' if tail else ''}"})
+    return evs
+
+
 def check(run: Run) -> None:
     thorough = run.tier == "thorough"
     run.rule = ("programs = every chunk sequence TLC builds over five families (conditionals, arithmetic with boundary numbers, stack ops, push forms, "
@@ -406,7 +560,7 @@ def check(run: Run) -> None:
                 "Events whose execution reaches a signature opcode or taproot are outside this signature-free instantiation and are counted apart")
     run.assumptions = ["Bitcoin Core's behaviour is represented by the transcription in spec/ScriptVM.tla + ScriptVerify.tla, validated on every run against "
                        "the signature-free vectors of Core's script_tests.json vendored in the repository",
-                       "CHECKSIG-family opcodes and taproot spends are not decided by this instantiation"]
+                       "the signature opcodes are decided by module ScriptSigs (validated against all 1228 vectors, 23 of them -- signatures that are not strict DER where no flag demands it -- outside it)"]
     # ---- the specification against Core's own vectors ----
     vec, meta = core_vectors()
     results, bad, diag = events.validate("C08Trace", vec)
@@ -415,6 +569,42 @@ def check(run: Run) -> None:
     if bad:
         k = bad[0]
         raise tlc.TLCFailure(f"C08: the specification disagrees with Core's vector {meta[k]}: {diag.get(k)}")
+    # ---- the specification WITH the signature opcodes (module ScriptSigs) against every vector, on Core's own transactions ----
+    from btclib.exceptions import BTClibException
+    from btclib.script.engine import verify_input
+
+    svec, smeta = core_sig_vectors()
+    keep = ("op", "tx", "prevouts", "idx", "flags", "ok")
+    results, sbad, sdiag = events.validate("C10Trace", [{k: v for k, v in e.items() if k in keep} for e in svec], batch=300, timeout=3000)
+    for r in results:
+        run.tlc(r, "ScriptSigs vs Core script_tests.json")
+    if sbad:
+        k = sbad[0]
+        raise tlc.TLCFailure(f"C08: the specification with signature opcodes disagrees with Core's vector {smeta[k]}: {sdiag.get(k)}")
+    # the library on the same transactions, and on signature spends in every state: judged by the same specification
+    sig_evs = []
+    for e, mta in zip(svec, smeta):
+        try:
+            verify_input([e["_credit"].vout[0]], e["_spend"], 0, e["flags"])
+            ok: Any = True
+        except BTClibException:
+            ok = False
+        except Exception as ex:  # noqa: BLE001
+            ok = f"foreign {type(ex).__name__}"
+        sig_evs.append({**{k: v for k, v in e.items() if k in keep}, "ok": ok, "kind": f"core vector: {mta[4] if len(mta) > 4 else mta[:2]}"})
+    sig_evs += record_sig_spends(run, 1500 if thorough else 300)
+    for e in sig_evs:
+        if isinstance(e["ok"], str):
+            run.violation(f"script|verify|foreign|{e['ok'].split(':')[0]}", f"verify_input ({e.get('kind')}) raised {e['ok']}", {"event": e})
+    sig_evs2 = [e for e in sig_evs if not isinstance(e["ok"], str)]
+    results, sbad2, sdiag2 = events.validate("C10Trace", [{k: v for k, v in e.items() if k in keep} for e in sig_evs2], batch=300, timeout=3000)
+    for r in results:
+        run.tlc(r, "V C10Trace (signature opcodes)")
+    for k in sbad2:
+        e = sig_evs2[k]
+        run.violation(f"script|verify|{e.get('kind', '')}|code={'accepts' if e['ok'] else 'refuses'}",
+                      f"{e.get('kind')}: btclib {'accepts' if e['ok'] else 'refuses'}, Core's rules give {sdiag2.get(k)} (flags {e['flags']})", {"event": e, "spec": str(sdiag2.get(k))})
+    run.section("signature_opcodes", {"core_vectors_on_core_transactions": len(svec), "signature_spends": len(sig_evs2) - len(svec)})
     # the same vectors through btclib
     n_vec = 0
     vec_code = []
@@ -448,7 +638,7 @@ def check(run: Run) -> None:
     run.sample({"spend": {k: v for k, v in evs2[len(vec_code) + 3].items()}})
     run.section("core_vectors", {"vectors": len(vec), "run_through_btclib": n_vec})
     run.section("programs", {"generated_and_run": n_prog, "nontrivial": nontrivial, "reach_a_signature_opcode": unmodelled})
-    run.count(evaluations=n_prog + len(evs), validated=n_prog + len(evs2), nontrivial=nontrivial + sum(1 for e in evs2 if e.get("kind") != "core-vector"))
+    run.count(evaluations=n_prog + len(evs) + len(sig_evs), validated=n_prog + len(evs2) + len(sig_evs2), nontrivial=nontrivial + sum(1 for e in evs2 if e.get("kind") != "core-vector"))
 
 
 def replay(path: str) -> int:
